@@ -39,10 +39,15 @@ Theorem C15_table : documented_part task_type_table = doc_table.
 Proof. vm_compute. reflexivity. Qed.
 Print Assumptions C15_table.
 
-(* `cond run --check //dir:t` on a file of constructor calls cs is accepted iff every definition
-   of the file is a documented constructor obeying its schema with a valid name, the names are
-   pairwise different, t is one of them, and t's deps are distinct identifiers of the documented
-   grammar, its args/options primitive (string keys), a combine's dependency names unique *)
+(* Loading ONE task t of a COND file of constructor calls cs (TaskIndex.load_single_task: evaluate the
+   file, then materialize t -- what the loader does at every task it visits, and the function the
+   correspondence check drives) succeeds iff every definition of the file is a documented
+   constructor obeying its schema with a valid name, the names are pairwise different, t is one of
+   them, and t's deps are distinct identifiers of the documented grammar, its args/options
+   primitive (string keys), a combine's dependency names unique.
+   `cond run --check //dir:t` applies this decision to every task of t's transitive closure
+   (Model/Loader.v; Props/C14.v proves that traversal sound and complete for an abstract per-task
+   verdict); the two are composed by the end-to-end part of the check, not by a theorem. *)
 Theorem C15_accept : forall dir cs t,
   Forall (fun c => fst c <> C_environment) cs ->
   (is_ok (check_calls dir cs t) = true <-> DocWellFormed dir cs t).
